@@ -239,6 +239,9 @@ func (s *bFiller) Fill(w io.Writer, stat decor.Statistics) error {
 		if !stat.Completed || s.tip.onComplete {
 			tip = s.tip.frames[s.tip.count%uint(len(s.tip.frames))]
 			s.tip.count++
+			if tip.width > width {
+				tip = component{} // a tip wider than the bar body is not drawn
+			}
 			fillCount += tip.width
 		}
 		switch refWidth := 0; {
